@@ -59,6 +59,11 @@ def fieldspec(draw, hdr, min_n=1, max_n=3, allow_index=True):
 OPS = {}
 
 
+def _h(t):
+    """The header of a table given as a list of rows or as a petl view."""
+    return list(t[0]) if isinstance(t, (list, tuple)) else list(etl.header(t))
+
+
 def op(name, ragged=True, dup=False, min_fields=1):
     def deco(cls):
         cls.name, cls.ragged, cls.dup, cls.min_fields = name, ragged, dup, min_fields
@@ -241,7 +246,8 @@ class AddFields:
 class AddColumn:
     @staticmethod
     def args(draw, t):
-        return {"col": draw(st.lists(st.integers(0, 9), max_size=len(t) + 1)), "index": draw(st.one_of(st.none(), st.integers(0, len(t[0]) + 1))),
+        # (the column holds ordinary values - None and the very `missing` markers included: they are values, not "absent")
+        return {"col": draw(st.lists(st.one_of(st.integers(0, 9), st.none(), st.sampled_from(["M", "", False, 0, None])), max_size=len(t) + 1)), "index": draw(st.one_of(st.none(), st.integers(0, len(t[0]) + 1))),
                 "missing": draw(st.sampled_from([None, "M", None, "M", 0, "", False]))}
 
     @staticmethod
@@ -496,15 +502,15 @@ class Convert:
             return etl.convert(t, a["field"], f, where=Convert._where)
         if form == "where-str":
             # where= as an expression string over the first field (when its name can be written in one)
-            n0 = t[0][0]
-            if isinstance(n0, str) and n0.isidentifier() and [str(x) for x in t[0]].count(n0) == 1:
+            n0 = _h(t)[0]
+            if isinstance(n0, str) and n0.isidentifier() and [str(x) for x in _h(t)].count(n0) == 1:
                 return etl.convert(t, a["field"], f, where="{%s} is not None" % n0)
             return etl.convert(t, a["field"], f, where=Convert._where)
         if form == "dict-mixed":
             return etl.convert(t, dict(zip(a["field"], Convert._mixed(f))))
         if form == "where-passrow":
             # both features together; the converter reads the row by position, by name and by attribute
-            name0 = t[0][0]
+            name0 = _h(t)[0]
             return etl.convert(t, a["field"], lambda v, row: ("pr", v, len(row), row[0], row[name0]), pass_row=True, where=Convert._where,
                                failonerror=True)
         return etl.convert(t, a["field"], lambda v, row: ("pr", v, len(row)), pass_row=True)
@@ -565,6 +571,15 @@ def _hashable(v):
         return False
 
 
+def _interp(v):
+    """interpolate is `fmt % v` - Python's operator, for which a tuple cell is a tuple of arguments; a cell the format cannot
+    take fails, and the default policy puts errorvalue (None) there."""
+    try:
+        return "<%r>" % v
+    except Exception:
+        return None
+
+
 @op("convertall")
 class ConvertAll:
     @staticmethod
@@ -600,8 +615,8 @@ class ConvertAll:
         k = a["field"]
         target = None if allf else (k if isinstance(k, int) else hdr.index(k))
         f = {"convertall": conv("tag"), "replaceall": lambda v: "nil" if v is None else v, "formatall": lambda v: "<{}>".format(v),
-             "interpolateall": lambda v: "<%r>" % (v,), "update": lambda v: "U", "replace": lambda v: "nil" if v is None else v,
-             "format": lambda v: "<{}>".format(v), "interpolate": lambda v: "<%r>" % (v,)}[w]
+             "interpolateall": _interp, "update": lambda v: "U", "replace": lambda v: "nil" if v is None else v,
+             "format": lambda v: "<{}>".format(v), "interpolate": _interp}[w]
         out = [tuple(hdr)]
         for r in t[1:]:
             r = tuple(r)
@@ -994,7 +1009,55 @@ def check_setitem(case, ctx):
     return None
 
 
+# ---- composition: an operator whose input is the OUTPUT of another operator ------------------------------------------
+def chain_case(tier, shard=0, nshards=1):
+    return _chain_case(tier, NAMES[shard::nshards] or NAMES)
+
+
+chain_case.sharded = True
+
+
+@st.composite
+def _chain_case(draw, tier, names):
+    c = draw(_case(tier, [n for n in NAMES if not n.startswith("acc-")]))   # (an accessor's output is not a table)
+    mid = [list(r) for r in OPS[c["op"]].ref(c["table"], c["args"])]
+    c["op2"] = None
+    if not mid or not mid[0] or not all(isinstance(f, str) and f for f in mid[0]):
+        return c   # (a header the second operator's arguments cannot be drawn for: left out)
+    isragged = any(len(r) != len(mid[0]) for r in mid[1:])
+    isdup = len(set(mid[0])) < len(mid[0])
+    ident = all(f.isidentifier() and not f.startswith("_") for f in mid[0])   # namedtuples need identifier-like names
+    cands = [n for n in names if (OPS[n].ragged or not isragged) and (OPS[n].dup or not isdup) and len(mid[0]) >= OPS[n].min_fields
+             and (ident or not n.startswith("acc-"))]
+    if not cands:
+        return c
+    c["op2"] = draw(st.sampled_from(cands))
+    c["args2"] = OPS[c["op2"]].args(draw, mid)
+    return c
+
+
+def check_chain(case, ctx):
+    if not case.get("op2"):
+        return None
+    o1, o2 = OPS[case["op"]], OPS[case["op2"]]
+    tbl = case["table"]
+    mid = [list(r) for r in o1.ref(tbl, case["args"])]
+    exp = [tuple(r) if isinstance(r, (list, tuple)) else r for r in o2.ref(mid, case["args2"])]
+    ctx.label("first:" + o1.name, "second:" + o2.name)
+    ctx.nontrivial(len(tbl) >= 3)
+    try:
+        res = o2.run(o1.run(codec.snapshot(tbl), case["args"]), case["args2"])
+        got = [tuple(r) if isinstance(r, (list, tuple)) else r for r in res]
+    except Exception as ex:
+        return exc_fail("chain/%s/%s" % (o1.name, o2.name), ex)
+    if not codec.strict_eq(got, exp):
+        return Fail("chain/%s/%s/rows" % (o1.name, o2.name), "%s(%s(%r, %r), %r) gave %r; the two references composed give %r"
+                    % (o2.name, o1.name, tbl, case["args"], case["args2"], got, exp))
+    return None
+
+
 SUBS = [Sub("rowops", check, strategy=case, quick=24000, thorough=400000),
+        Sub("chain", check_chain, strategy=chain_case, quick=8000, thorough=100000),
         Sub("setitem", check_setitem, strategy=setitem_case, quick=800, thorough=8000),
         Sub("dupnames", check_dup, strategy=dup_case, quick=1500, thorough=20000)]
 KNOWN = {}
